@@ -101,7 +101,7 @@ type Mutation struct {
 // returns the mutated copy. The result is usually, not always, malformed; oracles decide.
 func Mutate(t *rapid.T, b []byte) ([]byte, string) {
 	b = append([]byte(nil), b...)
-	kind := rapid.SampledFrom([]string{"truncate", "flip", "insert", "delete", "badlen", "overlong", "wiretype", "zerotag", "endgroup", "splice", "bigvarint", "retype", "retype"}).Draw(t, "mutation")
+	kind := rapid.SampledFrom([]string{"truncate", "flip", "insert", "delete", "badlen", "overlong", "wiretype", "zerotag", "endgroup", "splice", "bigvarint", "retype", "retype", "rawvarint", "rawvarint"}).Draw(t, "mutation")
 	pos := 0
 	if len(b) > 0 {
 		pos = rapid.IntRange(0, len(b)-1).Draw(t, "pos")
@@ -193,6 +193,34 @@ func Mutate(t *rapid.T, b []byte) ([]byte, string) {
 			}
 			b = out
 		}
+	case "rawvarint": // a bare hostile varint (no tag) at a varint boundary: inside a packed run it is an element
+		// walk to a varint boundary at or before pos, assuming b is a run of varints
+		at := 0
+		for at < pos {
+			n := 1
+			for at+n-1 < len(b) && b[at+n-1] >= 0x80 {
+				n++
+			}
+			if at+n > pos {
+				break
+			}
+			at += n
+		}
+		var v []byte
+		switch rapid.IntRange(0, 3).Draw(t, "rawkind") {
+		case 0: // ten bytes, value needs more than 64 bits
+			v = []byte{0xff, 0xff, 0xff, 0xff, 0xff, 0xff, 0xff, 0xff, 0xff, byte(rapid.IntRange(2, 0x7f).Draw(t, "last"))}
+		case 1: // ten bytes, the largest value that fits (valid)
+			v = []byte{0xff, 0xff, 0xff, 0xff, 0xff, 0xff, 0xff, 0xff, 0xff, 0x01}
+		case 2: // eleven bytes
+			v = []byte{0x80, 0x80, 0x80, 0x80, 0x80, 0x80, 0x80, 0x80, 0x80, 0x80, 0x01}
+		default: // padded small value (valid)
+			v = []byte{0x81, 0x80, 0x80, 0x00}
+		}
+		if at > len(b) {
+			at = len(b)
+		}
+		b = append(b[:at], append(v, b[at:]...)...)
 	case "bigvarint": // field number > 2^29-1 or > 2^31-1
 		v := rapid.SampledFrom([]uint64{1 << 29, 1<<31 - 1, 1 << 31, 1 << 40, 1<<61 - 1}).Draw(t, "bignum")
 		extra := ref.Varint(nil, v<<3)
